@@ -539,7 +539,24 @@ pub fn run_items(args: &Args, items: Vec<Item>) -> Report {
                     if dt > 30.0 {
                         rep.note(format!("slow item {} {:.1}s", it.name, dt));
                     }
-                    merged.lock().unwrap().merge(rep);
+                    let mut m = merged.lock().unwrap();
+                    m.merge(rep);
+                    // keep what has been observed so far on disk once there is a violation: if another item never
+                    // returns (a seeded comparison bug can make library loops spin) the runner's watchdog kills the
+                    // process, and the violations observed before that must not be lost with it
+                    if !m.violations.is_empty() {
+                        if let Some(out) = &args.out {
+                            let done = next.load(Ordering::SeqCst).min(items.len());
+                            let v = json!({
+                                "partial": true,
+                                "items_started": done,
+                                "items_total": items.len(),
+                                "evaluations": m.evaluations,
+                                "violations": m.violations.values().map(|v| json!({"signature": v.signature, "count": v.count, "detail": v.detail, "item": v.item})).collect::<Vec<_>>(),
+                            });
+                            let _ = std::fs::write(format!("{out}.partial"), serde_json::to_string(&v).unwrap_or_default());
+                        }
+                    }
                 })
                 .expect("spawn");
         }
